@@ -244,7 +244,7 @@ static void synth(Case& c, const Fn* f, const Mut& mut, bool reuse, Args& A) {
       A.a[k].z = v;
       break;
     }
-    case K_SIZE: A.a[k].z = 0; break;    // filled with the preceding / following array
+    case K_SIZE: if (!(k > 0 && f->args[k - 1].kind == K_DIMARR)) A.a[k].z = 0; break;    // filled with the preceding / following array (an array before it has already set it)
     case K_INT: {
       int v = 0;
       if (mutated && mut.kind == MUT_BAD_ENUM) v = hx::coin() ? 7 : -3;
@@ -280,7 +280,13 @@ static void synth(Case& c, const Fn* f, const Mut& mut, bool reuse, Args& A) {
         std::vector<size_t> img; for (long i = 0; i < rdim; ++i) img.push_back((size_t) i);
         std::shuffle(img.begin(), img.end(), hx::rng());
         size_t kept = 0;
-        for (long i = 0; i < rdim; ++i) { if (hx::coin(25)) v.push_back(not_a_dimension()); else v.push_back(0), ++kept; }
+        // boundary shapes of the partial function are drawn on purpose: only the first / only the last index
+        // defined, everywhere undefined, total; otherwise each index is undefined with probability 1/4
+        int shape = hx::rnd(0, 9);
+        for (long i = 0; i < rdim; ++i) {
+          bool undef = shape == 0 ? (i != 0) : shape == 1 ? (i != rdim - 1) : shape == 2 ? true : shape == 3 ? false : hx::coin(25);
+          if (undef) v.push_back(not_a_dimension()); else v.push_back(0), ++kept;
+        }
         // images 0..kept-1 in shuffled order
         std::vector<size_t> tgt; for (size_t i = 0; i < kept; ++i) tgt.push_back(i);
         std::shuffle(tgt.begin(), tgt.end(), hx::rng());
